@@ -24,7 +24,7 @@ TOL = 1e-9
 
 
 def plan(tier, seed):
-    n = 120 if tier == "quick" else 5000
+    n = 1200 if tier == "quick" else 40000
     return [{"name": "s%d" % i, "seed": seed, "shard": i, "n_seq": n, "exhaustive": tier == "thorough"}
             for i in range(NSHARDS)]
 
@@ -33,6 +33,13 @@ def plan(tier, seed):
 def cpoint(p):
     from pv import canon
     return {id(k): v for k, v in canon.point_coeffs(p).items() if abs(v) > 1e-13}
+
+
+def ppt(p):
+    """'the same point' in the statement's sense: the SAME decomposition over leaf points - exactly, as the library's own
+    lookup compares it (a coefficient that differs in the last bit, e.g. (x - 3.6 y) + 3.6 y = 0.9999999999999991 x, is
+    another point and may legitimately get its own sample: DESIGN Appendix B17)"""
+    return {id(k): v for k, v in p.decomposition_dict.items() if v != 0}
 
 
 def cexpr(e):
@@ -87,14 +94,14 @@ class Checker(object):
             self.check_function(F, after_call)
 
     def check_function(self, F, after_call):
-        trip = [(cpoint(x), cpoint(g), cexpr(v)) for (x, g, v) in F.list_of_points]
+        trip = [(ppt(x), cpoint(g), cexpr(v)) for (x, g, v) in F.list_of_points]
         # I6: recorded samples immutable, list append-only
         old = self.snap.get(id(F), [])
         self.n += 1
         if len(trip) < len(old):
             self.v("samples_removed", "list_of_points of a function shrank after %s" % after_call)
         for i, (o, t) in enumerate(zip(old, trip)):
-            if not (close(o[0], t[0]) and close(o[1], t[1]) and close(o[2], t[2])):
+            if not (o[0] == t[0] and close(o[1], t[1]) and close(o[2], t[2])):
                 self.v("recorded_sample_mutated", "sample %d of a function changed after %s" % (i, after_call))
                 break
         self.snap[id(F)] = trip
@@ -102,7 +109,7 @@ class Checker(object):
         groups = []
         for t in trip:
             for gr in groups:
-                if close(gr[0][0], t[0]):
+                if gr[0][0] == t[0]:
                     gr.append(t)
                     break
             else:
@@ -143,13 +150,13 @@ class Checker(object):
         # I3 composite coherence
         if not F.get_is_leaf():
             terms = [(f, float(w)) for f, w in F.decomposition_dict.items() if w != 0]
-            tsamples = {id(f): [(cpoint(x), cpoint(g), cexpr(v)) for (x, g, v) in f.list_of_points] for f, _ in terms}
+            tsamples = {id(f): [(ppt(x), cpoint(g), cexpr(v)) for (x, g, v) in f.list_of_points] for f, _ in terms}
             for t in trip:
                 self.n += 1
                 cands = []
                 missing = False
                 for f, w in terms:
-                    c = [s for s in tsamples[id(f)] if close(s[0], t[0])]
+                    c = [s for s in tsamples[id(f)] if s[0] == t[0]]
                     if not c:
                         missing = True
                         break
@@ -258,17 +265,17 @@ def run_sequence(rng, calls=None, ck=None):
         kind = "leaf" if F.get_is_leaf() else "comp"
         seq.append(c + ":" + kind)
         if c == "oracle":
-            before = [(cpoint(xx), cpoint(gg), cexpr(vv)) for (xx, gg, vv) in F.list_of_points]
+            before = [(ppt(xx), cpoint(gg), cexpr(vv)) for (xx, gg, vv) in F.list_of_points]
             g, v = F.oracle(x)
             pts.append(g)
             check_return(ck, F, x, g, v, before, "oracle")
         elif c in ("gradient", "subgradient"):
-            before = [(cpoint(xx), cpoint(gg), cexpr(vv)) for (xx, gg, vv) in F.list_of_points]
+            before = [(ppt(xx), cpoint(gg), cexpr(vv)) for (xx, gg, vv) in F.list_of_points]
             g = getattr(F, c)(x)
             pts.append(g)
             check_return(ck, F, x, g, None, before, c)
         elif c in ("value", "call"):
-            before = [(cpoint(xx), cpoint(gg), cexpr(vv)) for (xx, gg, vv) in F.list_of_points]
+            before = [(ppt(xx), cpoint(gg), cexpr(vv)) for (xx, gg, vv) in F.list_of_points]
             v = F.value(x) if c == "value" else F(x)
             check_return(ck, F, x, None, v, before, c)
         elif c == "stationary":
@@ -308,8 +315,8 @@ def run_sequence(rng, calls=None, ck=None):
 
 def check_return(ck, F, x, g, v, before, what):
     """Contracts on returned objects, against the state before the call."""
-    cx = cpoint(x)
-    prev = [t for t in before if close(t[0], cx)]
+    cx = ppt(x)
+    prev = [t for t in before if t[0] == cx]
     ck.n += 1
     if v is not None and prev:
         if not close(cexpr(v), prev[0][2]):
@@ -319,8 +326,8 @@ def check_return(ck, F, x, g, v, before, what):
         if not any(close(cpoint(g), t[1]) for t in prev):
             ck.v("gradient_not_reused:%s" % what, "%s on a differentiable function returned a new gradient for a known point" % what)
     # what is returned must be recorded
-    now = [(cpoint(xx), cpoint(gg), cexpr(vv)) for (xx, gg, vv) in F.list_of_points]
-    here = [t for t in now if close(t[0], cx)]
+    now = [(ppt(xx), cpoint(gg), cexpr(vv)) for (xx, gg, vv) in F.list_of_points]
+    here = [t for t in now if t[0] == cx]
     if not here:
         ck.v("returned_sample_not_recorded:%s" % what, "%s returned objects but recorded no sample at the point" % what)
         return
